@@ -2,7 +2,10 @@
 # usage: tools/eval_seed.sh <patch.diff> <Cnn> [more props]   -- apply to /repo, run checks, revert
 set -u
 patch=$1; shift
-cd /repo && git status --short | grep -v '^??' | head -3
+cd /repo
+# never run on a dirty /repo: the final `git checkout -- .` would wipe uncommitted work (test runs may leave the reporter dummy file deleted)
+git checkout -q -- loki/lint/tests/test_reporter_dummy_file.F90 2>/dev/null
+if [ -n "$(git status --short | grep -v '^??')" ]; then echo "REFUSING: /repo has uncommitted changes"; git status --short | head -3; exit 4; fi
 git -C /repo apply --check "$patch" || { echo "PATCH DOES NOT APPLY"; exit 3; }
 git -C /repo apply "$patch"
 cd /verif
